@@ -98,11 +98,16 @@ ParamIdx(d, tok) == IF tok.k # "id" THEN 0
 \* ---- hsadd ---------------------------------------------------------------
 HsAdd(HS, ts) == Mk([j \in 1..Len(ts) |-> [ts[j] EXCEPT !.hs = @ \cup HS]])
 \* The hide set of the result of a function-like invocation is built from the hide sets of
-\* the macro name and of the closing parenthesis.  Prosser intersects them; when the two
-\* tokens come from different replacement contexts the standard leaves it unspecified
-\* whether the inner replacement is "nested" (6.10.3.4, DR 268) -- the other reading is
-\* the union.  Both are computed; a unit on which they differ has status "unspec".
-Meet(mode, a, b) == IF mode = "inter" THEN a \cap b ELSE a \cup b
+\* the macro name and of the closing parenthesis.  Prosser intersects them ("inter": a macro stays
+\* hidden only if the whole invocation lies inside its replacement).  When the name is the end of
+\* one replacement and the arguments come from text outside it, the standard leaves it unspecified
+\* whether the invocation counts as nested in that replacement (6.10.3.4p4, its example f(2)(9),
+\* DR 268): under the "nested" reading everything hidden in the name stays hidden, whatever the
+\* parenthesis carries.  Both readings are computed; a unit on which they differ has status
+\* "unspec" and is not judged -- an implementation may follow either.
+Meet(mode, a, b) == IF mode = "inter" THEN a \cap b ELSE a
+\* a pasted token: hidden in both operands / in either operand
+MeetGlue(mode, a, b) == IF mode = "inter" THEN a \cap b ELSE a \cup b
 
 \* ---- stringize (6.10.3.2) --------------------------------------------------
 Esc(tok) == IF tok.k \in {"str", "chr"}
@@ -173,7 +178,7 @@ Glue(L, R, mode) ==
              k == Classify(t)
          IN IF k = "bad" THEN Bad("undef", {"paste-invalid-token"})
             ELSE [st |-> "ok", tags |-> {"paste"} \cup (IF k = "num" /\ ~IsNumber(t) THEN {"paste-odd-pp-number"} ELSE {}),
-                  tok |-> [k |-> k, t |-> t, hs |-> Meet(mode, L.hs, R.hs), ws |-> L.ws, syn |-> L.syn]]
+                  tok |-> [k |-> k, t |-> t, hs |-> MeetGlue(mode, L.hs, R.hs), ws |-> L.ws, syn |-> L.syn]]
 
 \* left-to-right evaluation of the ## operators (items of kind "paste") of a replacement list
 RECURSIVE PastePass(_, _, _, _, _)
@@ -302,7 +307,7 @@ Exp(ms, mode, ts, acc, tg, fuel, ctx) ==
 \* complete macro replacement of a token sequence under both readings of the hide-set rule
 Expand(ms, ts) ==
     LET e1 == Exp(ms, "inter", ts, <<>>, {}, Fuel, "text")
-        e2 == Exp(ms, "union", ts, <<>>, {}, Fuel, "text")
+        e2 == Exp(ms, "nested", ts, <<>>, {}, Fuel, "text")
     IN IF e1.st # "ok" THEN e1
        ELSE IF e2.st # "ok" \/ Proj(e2.toks) # Proj(e1.toks) THEN Bad("unspec", {"nested-replacement-unspecified"})
        ELSE e1
@@ -469,7 +474,7 @@ IfValueMode(ms, mode, ts) ==
                     tags |-> r.tags \cup (e.tags \ {"hidden-if"}) \cup (IF dp.toks # ts THEN {"if-defined"} ELSE {})]
 IfValue(ms, ts) ==
     LET a == IfValueMode(ms, "inter", ts)
-        b == IfValueMode(ms, "union", ts)
+        b == IfValueMode(ms, "nested", ts)
     IN IF a.st # "ok" THEN a
        ELSE IF b.st # "ok" \/ b.v # a.v THEN [st |-> "unspec", v |-> FALSE, tags |-> {"nested-replacement-unspecified"}]
        ELSE a
